@@ -1,0 +1,26 @@
+// SPDX-FileCopyrightText: 2020 - 2025 SAP SE
+//
+// SPDX-License-Identifier: Apache-2.0
+
+//go:build verif
+
+// Contracts for the verification machinery under /verif (comment-only file;
+// compiled only with -tags verif and contains no code).
+
+package dblib
+
+//@ # C20. database/sql levels: Default 0, ReadUncommitted 1, ReadCommitted 2, WriteCommitted 3,
+//@ # RepeatableRead 4, Snapshot 5, Serializable 6, Linearizable 7. ASE levels: Invalid -1,
+//@ # ReadUncommitted 1, ReadCommitted 2, RepeatableRead 3, SerializableRead 4.
+//@ # fwd is written from the property statement (the four levels ASE supports; default means
+//@ # read committed; everything else is an error), not from the table in the code.
+//@ pred fwd(l int) { l == 0 ? 2 : l == 1 ? 1 : l == 2 ? 2 : l == 4 ? 3 : l == 6 ? 4 : 0 - 1 }
+//@ pred back(a int) { a == 1 ? 1 : a == 2 ? 2 : a == 3 ? 4 : a == 4 ? 6 : 0 }
+//@ func ASEIsolationLevelFromGo returns (r, err)
+//@   ensures [table] r == fwd(lvl)
+//@   ensures [error-iff-unsupported] (err != nil) == (fwd(lvl) == 0 - 1)
+//@ func (ASEIsolationLevel).ToGo returns (r)
+//@   ensures [function] r == back(lvl)
+//@ lemma roundtrip(l)
+//@   requires l == 1 || l == 2 || l == 4 || l == 6
+//@   ensures back(fwd(l)) == l
